@@ -220,6 +220,5 @@ def run_shard(ctx):
             ctx.stats.excluded[k] += n
         ctx.stats.case(key=m.source(), nontrivial=nt,
                        classes=['fault:' + info['kind']] + (['fault-within-14-chars-of-end'] if near_end else []),
-                       sample={'src': m.source()[len(docgen.PREAMBLE):], 'fault': info['kind'], 'fault_offset': info['off'] + 1}
-                       if nt and ctx.stats.evaluations % 300 == 0 else None)
+                       sample={'src': m.source()[len(docgen.PREAMBLE):], 'fault': info['kind'], 'fault_offset': info['off'] + 1})
     hyp_run(ctx, case_s, positive, ctx.n(30000, 600000), seed=ctx.shard_seed + 500)
